@@ -408,7 +408,7 @@ fn c12_header_total_g512() {
     header_total_case(512, 0, 16);
 }
 
-// @harness props=C12,C20 tier=thorough timeout=3000 mem=16 stubbing=1 replay=scenario:header_fuzz
+// @harness props=C12,C20 tier=thorough timeout=3000 mem=16 stubbing=1 replay=scenario:header_fuzz attempt=1
 // @desc as c12_header_total_g512 with a region header page and a non-power-of-two region size
 // @functions UnrepairedDatabaseHeader::{from_bytes,recovery_required,finalize,layout_from_file_len}
 // @bound geometry fixed to page size 4096, 1 region header page, 1000 data pages per region
@@ -681,7 +681,7 @@ crash_harness!(c01_crash_p0_2pc_cut1, 0, 16, Some(1), Some(true), 18);
 crash_harness!(c01_crash_p0_2pc_cut2, 0, 16, Some(2), Some(true), 18);
 crash_harness!(c01_crash_p0_2pc_cut4, 0, 16, Some(4), Some(true), 18);
 
-// @harness props=C01 tier=thorough timeout=7200 mem=32 stubbing=1 replay=scenario:crash
+// @harness props=C01 tier=thorough timeout=3600 mem=32 stubbing=1 replay=scenario:crash attempt=1
 // @desc as the c01_crash_* family with every cut and both commit modes in ONE query (primary index 0 / 1), and - for the _bytes variant - byte-granular tearing (each of the 128 slot bytes independently persisted)
 // @functions as c01_crash_p0_1pc_cut1
 // @bound as c01_crash_p0_1pc_cut1; cut and commit mode symbolic; _bytes: torn byte by byte
